@@ -107,7 +107,7 @@ pub struct History {
 // Fixed material: modules on the simulated disk, probe scripts
 
 pub const MODULES: &[(&str, &str)] = &[
-    ("okmod.koto", "export x = 1\n"),
+    ("okmod.koto", "mark(4242)\nexport x = 1\n"),
     ("failtop.koto", "export y = 2\nthrow 'FT'\n"),
     ("failtest.koto", "export z = 3\n@test boom = ||\n  throw 'FTEST'\n"),
     ("failmain.koto", "export w = 4\n@main = ||\n  throw 'FMAIN'\n"),
@@ -177,8 +177,8 @@ pub const PROBES: &[&str] = &[
     "f = ||\n  g = |n|\n    for i in 0..n\n      yield i * 2\n  g(5).each(|x| x + 1).keep(|x| x > 2).to_tuple()\nf()\n",
     "f = ||\n  r = []\n  x = try\n    r.push(1)\n    throw 'boom'\n  catch e\n    r.push(e)\n    2\n  finally\n    r.push(3)\n    4\n  '{x} {r}'\nf()\n",
     "f = ||\n  o =\n    @+: |other| 10 + other\n    @display: || 'obj'\n  '{o + 5} {o}'\nf()\n",
-    "f = ||\n  koto.run('a = [1, 2]\\n\\'{a}x\\'')\nf()\n",
-    "f = ||\n  a, b = [1, 2], 'x{3}y'\n  m = {a, b}\n  m.update('a', |l| l.size())\n  '{m}'\nf()\n",
+    "f = ||\n  koto.run('a = [1, 2]\\n\\'\\{a}x\\'')\nf()\n",
+    "f = ||\n  a, b = [1, 2], 'x{3}y'\n  m = {a, b}\n  m.update('a', |l| size l)\n  '{m}'\nf()\n",
 ];
 
 // ---------------------------------------------------------------------------------------------
@@ -445,12 +445,15 @@ fn mopts(tick_start: u32) -> ModelOpts {
 fn merge(p: &mut Prediction, q: Prediction) {
     p.markers.extend(q.markers);
     p.caught.extend(q.caught);
+    p.caught_runtime.extend(q.caught_runtime);
     p.dumps.extend(q.dumps);
     p.stdout.push_str(&q.stdout);
     p.ticks = q.ticks;
     p.fired += q.fired;
     p.gl = q.gl;
     p.error_occurred |= q.error_occurred;
+    p.model_steps += q.model_steps;
+    p.storm_iterations += q.storm_iterations;
     p.sig.extend(q.sig);
     if p.model_gap.is_none() {
         p.model_gap = q.model_gap;
@@ -599,6 +602,7 @@ pub fn exec_op(
     source: Option<&str>,
     clock: &Rc<VClock>,
     with_probes: bool,
+    step_cap: u64,
 ) -> OpObs {
     let mut o = OpObs::default();
     {
@@ -620,7 +624,7 @@ pub fn exec_op(
     inst.host.take_log();
     inst.host.stdout.take_output();
     clock.record_entries.set(false);
-    clock.reset_keep_time(CostProfile::constant(1), 1, STEP_CAP, 1_000);
+    clock.reset_keep_time(CostProfile::constant(1), 1, step_cap, 1_000);
     let script_path = inst.script_path.clone();
     let clear_exports = inst.clear_exports_before_run;
     let koto = &mut inst.host.koto;
@@ -823,8 +827,11 @@ pub fn evaluate(h: &History, ws: &HistWorkerState) -> HistEval {
     let mut n_probe_batteries = 0u64;
     let mut residue_seen = 0u64;
 
+    let mut okmod_loaded = false;
     for (i, op) in h.ops.iter().enumerate() {
         // the model's prediction for this operation
+        crate::simmodel::set_okmod_loaded(okmod_loaded);
+        let mut expect_markers: Option<Vec<u32>> = None;
         let mut pred: Option<Prediction> = None;
         let mut expect_err_only: Option<bool> = None; // Some(true) = must fail, Some(false) = must succeed
         let mut expect_value: Option<String> = None;
@@ -927,12 +934,20 @@ pub fn evaluate(h: &History, ws: &HistWorkerState) -> HistEval {
             }
             Op::CallNonCallable | Op::CallMissing | Op::RunBad => expect_err_only = Some(true),
             Op::ShowGlobals => expect_value = Some(fmt_list(&gl)),
-            Op::Import(k) => match import_expect(*k) {
-                Ok(v) => expect_value = Some(v.to_string()),
-                Err(()) => expect_err_only = Some(true),
-            },
+            Op::Import(k) => {
+                match import_expect(*k) {
+                    Ok(v) => expect_value = Some(v.to_string()),
+                    Err(()) => expect_err_only = Some(true),
+                }
+                if *k == ImportKind::Ok {
+                    // the module's top level runs once per runtime, whatever failed in between
+                    expect_markers = Some(if okmod_loaded { vec![] } else { vec![4242] });
+                    crate::simmodel::set_okmod_loaded(true);
+                }
+            }
             Op::Spin(_) => expect_err_only = Some(true),
         }
+        okmod_loaded = crate::simmodel::okmod_loaded();
         if let Some(p) = &pred
             && let Some(gap) = &p.model_gap
         {
@@ -945,7 +960,9 @@ pub fn evaluate(h: &History, ws: &HistWorkerState) -> HistEval {
             (None, Some(f)) => f,
             _ => false,
         };
-        let obs = exec_op(&mut inst, op, source.as_deref(), &ws.clock, model_says_fail || any_failed);
+        // the step cap allows for what the model says the operation does
+        let cap = STEP_CAP + pred.as_ref().map_or(0, |p| 400 * p.model_steps + 200 * p.storm_iterations);
+        let obs = exec_op(&mut inst, op, source.as_deref(), &ws.clock, model_says_fail || any_failed, cap);
         ev.executions += 1;
         ev.instructions += obs.instructions;
         ev.faults_fired += obs.fired as u64;
@@ -1022,6 +1039,15 @@ pub fn evaluate(h: &History, ws: &HistWorkerState) -> HistEval {
                     format!("{} expected Ok({val}), got {:?}", op.kind(), obs.result),
                 ));
             }
+        }
+        if v.is_none()
+            && let Some(m) = &expect_markers
+            && *m != obs.markers
+        {
+            v = Some((
+                "model:markers".into(),
+                format!("{}: a module's top level runs once per runtime: expected markers {m:?}, got {:?}", op.kind(), obs.markers),
+            ));
         }
         // (C) no leftover execution state when control is back in the host
         if v.is_none() {
@@ -1343,7 +1369,12 @@ pub fn replay(doc: &Value) -> (Option<(String, String)>, u64) {
                 }
             }
         };
-        let obs = exec_op(&mut inst, &op, source.as_deref(), &ws.clock, true);
+        let cap = STEP_CAP
+            + expected.get(i).filter(|e| !e.is_null()).map_or(0, |e| {
+                let p = unwindsim::prediction_from_json(e);
+                400 * p.model_steps + 200 * p.storm_iterations
+            });
+        let obs = exec_op(&mut inst, &op, source.as_deref(), &ws.clock, true, cap);
         dg.str(&format!("{:?}", obs.result));
         for s in obs.state {
             dg.u64(s as u64);
